@@ -113,6 +113,7 @@ type writerState struct {
 	closeReturned                   int
 	closeInvokedAt, closeReturnedAt time.Duration
 	raceClose                       bool
+	ownsTransport                   bool          // built by NewWriter: Close is responsible for the Transport too
 	stallMax                        time.Duration // goroutines may be descheduled for up to this long (0: never)
 	partsChanged                    bool          // the scenario changed a topic's partition count during the run
 	seenReq                         int
@@ -582,6 +583,7 @@ func writerScenario(s *Sim, params map[string]string) {
 		tr2 := w2.Transport.(*kafka.Transport)
 		tr2.Dial, tr2.DialTimeout = n.Dialer("writer"), tr.DialTimeout
 		w, tr = w2, tr2
+		st.ownsTransport = true
 		s.Count("writer-from-NewWriter")
 	}
 	if st.timingFaults && !st.raceClose && t.Intn("wstall", 3) == 0 { // (the second user would outlive a Close that races with the actors)
@@ -833,7 +835,9 @@ func writerScenario(s *Sim, params map[string]string) {
 		st.closeInvoked, st.closeInvokedAt = s.Step, s.Now()
 		w.Close()
 		st.closeReturned, st.closeReturnedAt = s.Step, s.Now()
-		tr.CloseIdleConnections()
+		if !st.ownsTransport { // (a Writer from NewWriter shuts its own Transport down)
+			tr.CloseIdleConnections()
+		}
 		closed = true
 	}
 	if st.raceClose {
